@@ -18,6 +18,11 @@ import Frp.Engines.Stack
   (`CodecPool.run Gen.CodecFacts.disc` — the recycle sites read from client/proxy/proxy.go —, state carried from round to round): `C02.codec_own_stream` says every Read / Write
   works on its own stream, so every user is predicted to get exactly its own answers; `C02.roundHolds` is
   evaluated on what the users and the backends really saw.
+
+  Ops `hf` / `hl` (harness/eng_http_e2e_fault.go): a sender dies in the middle of a body (backend, user, or the work
+  connection) — the message is replayed on `HttpAbort.chain` over the relaying hops of the proxy kind and
+  `C02.abortHolds` is evaluated on what the final reader got; rounds of up to 24 exchanges held open plus one more
+  request — predicted from `ConnLimit.pathForwards` over the regenerated Transport literals, `C02.longHolds`.
 -/
 namespace Frp
 namespace Engines
@@ -130,8 +135,100 @@ def hcStep (st : State) (rest : List String) (impl : String) : State × Verdict 
         (st', verdictOf model impl (some (C02.roundHolds (rs.map (·.map (·.2))))))
   | _, _ => (st, .bad "hc")
 
+/-! ### faults in the middle of an exchange (op `hf`) and rounds of long-lived exchanges (op `hl`)
+    harness/eng_http_e2e_fault.go -/
+
+def framingOf (k : String) : Option HttpAbort.Framing :=
+  if k = "cl" then some .cl else if k = "ch" then some .ch else if k = "eof" then some .eof else none
+
+def parseFault (t : String) : Option (Char × Nat) :=
+  match t.toList with
+  | c :: rest => (String.ofList rest).toNat?.map (fun n => (c, n))
+  | [] => none
+
+/-- frp's own answer to a backend failure (no backend tag): frps' not-found page / 504, the plugins' 502 -/
+def isErrStatus (st : Nat) : Bool := st == 404 || st == 502 || st == 504
+
+def hfStep (st : State) (rest : List String) (impl : String) : State × Verdict :=
+  match (stkKV rest "key").bind parseUser, (stkKV rest "up").bind parseBody, (stkKV rest "dn").bind parseBody,
+        stkNat rest "st", (stkKV rest "fault").bind parseFault with
+  | some u, some (uk, _, ulen), some (dk, _, dlen), some stW, some (fc, fk) =>
+    let plugin := isPlugin u.kind
+    let vhost := ConnLimit.viaVhostProxy u.kind          -- does frps' ReverseProxy relay the exchange (http proxies)?
+    let res (k : String) : String := (stkRes impl k).getD "?"
+    let nat (k : String) : Nat := (stkResNat impl k).getD 0
+    let reached := res "be" == u.key
+    let stI := nat "st"
+    let endI := res "end"
+    let upWhole := res "uw" == "1"
+    if fc = 'd' ∨ fc = 'w' then
+      match framingOf dk with
+      | none => (st, .bad "hf: answer framing")
+      | some fr =>
+        let k := min fk dlen
+        let nI := nat "n"
+        let snd : HttpAbort.Sent := { fr := fr, total := dlen, k := k, died := true }
+        -- the hops between the sender that died and the user; what a hop had not yet passed on when it aborted is
+        -- taken from the implementation's result (all of it booked on the last hop)
+        let lost := k - nI
+        -- `w`: the work connection dies — behind a plugin it is the plugin's (re-framed) message that is cut
+        let s0 : HttpAbort.Sent := if fc = 'w' ∧ plugin then { (HttpAbort.hop C02.frpEnv snd 0) with died := true } else snd
+        let hops : List (HttpAbort.Env × Nat) :=
+          (if fc = 'd' ∧ plugin then [(C02.frpEnv, if vhost then 0 else lost)] else []) ++ (if vhost then [(C02.frpEnv, lost)] else [])
+        let s1 := HttpAbort.chain hops s0
+        let uM := HttpAbort.readOf (if hops.isEmpty then { s1 with k := s1.k - lost } else s1)
+        -- close-delimited all the way to the point of death: the death cannot be told from the end (no demand on `end`)
+        let eofFree := fc = 'w' ∧ s0.fr = .eof
+        let errAnswer := res "tag" == "-" && isErrStatus stI && endI == "ok"
+        let ended := endI == "ok"
+        let faithful := if eofFree then decide (nI ≤ k) && res "pre" == "1"
+          -- (relative to the sender whose death the readers can see: behind a plugin a killed work connection cuts the
+          --  plugin's re-framed message — a close-delimited backend answer travels chunked there)
+          else C02.abortHolds { fr := s0.fr, total := s0.total, k := s0.k, died := true, n := nI, ended := ended, prefixOk := res "pre" == "1" }
+        let own := res "tag" == u.key && (stI == stW || (stI == 0 && !ended)) && faithful
+        let prop := reached && upWhole && res "upre" == "1" && endI != "timeout" && (errAnswer || own || (stI == 0 && !ended && nI == 0))
+        let agrees := reached && (errAnswer || eofFree || (ended == uM.ended && nI == uM.n))
+        let model := if agrees then impl else s!"be={u.key};…;n={uM.n};end={if uM.ended then "ok" else "cut"}"
+        (st, verdictOf model impl (some prop))
+    else if fc = 'q' then
+      -- the backend died before answering: an error answer of frp's own or a cut connection, never a hang, never
+      -- an answer in the backend's name
+      let prop := reached && res "tag" == "-" && endI != "timeout" && (stI == 0 || isErrStatus stI) && decide (nat "up" ≤ fk)
+      (st, verdictOf (if prop then impl else s!"be={u.key};…;tag=-;st=404|502|cut") impl (some prop))
+    else
+      match framingOf uk with
+      | none => (st, .bad "hf: request framing")
+      | some fr =>
+        if res "be" == "-" then (st, verdictOf impl impl (some true))     -- the user left before anything was forwarded
+        else
+          let k := min fk ulen
+          let upI := nat "up"
+          let snd : HttpAbort.Sent := { fr := fr, total := ulen, k := k, died := true }
+          let uM := HttpAbort.readOf (HttpAbort.chainUp ((if plugin then [0] else []) ++ (if vhost then [k - upI] else [])) snd)
+          let prop := reached && C02.abortHolds { fr := fr, total := ulen, k := k, died := true, n := upI, ended := upWhole,
+                                                   prefixOk := res "upre" == "1" }
+          let model := if upWhole == uM.ended then impl else s!"be={u.key};…;uw={stkBit uM.ended}"
+          (st, verdictOf model impl (some prop))
+  | _, _, _, _, _ => (st, .bad "hf")
+
+def hlStep (st : State) (rest : List String) (impl : String) : State × Verdict :=
+  match (stkKV rest "key").bind parseUser, stkNat rest "n" with
+  | some u, some n =>
+    -- the Transports on the path of this proxy kind (regenerated literals): with k exchanges open, is the next forwarded?
+    let path := ConnLimit.pathOf Gen.HttpFacts.transports u.kind
+    let allOpen := (List.range n).all (fun k => ConnLimit.pathForwards path k)
+    let probeFwd := ConnLimit.pathForwards path n
+    let model := if allOpen ∧ probeFwd then s!"open={n};probe=ok;fin={n};bad=0"
+                 else s!"capped: open<{n} or probe=timeout"
+    let prop := C02.longHolds n ((stkResNat impl "open").getD 0) (stkRes impl "probe" == some "ok") ((stkResNat impl "fin").getD 0) &&
+                stkRes impl "bad" == some "0"
+    (st, verdictOf model impl (some prop))
+  | _, _ => (st, .bad "hl")
+
 def step (st : State) (tok : List String) (impl : String) : State × Verdict :=
   match tok with
+  | "hf" :: rest => hfStep st rest impl
+  | "hl" :: rest => hlStep st rest impl
   | ["reset"] => (State.init, verdictOf "-" impl)
   | "hc" :: rest => hcStep st rest impl
   | "hx" :: rest =>
